@@ -35,7 +35,7 @@ def case_strategy(draw):
     c["fresh"] = draw(st.booleans())
     c["fresh_seed"] = draw(st.integers(1, 9))
     if kind == "binary":
-        c["x"] = draw(st.sampled_from(["k", "g", "f", "x > 0", "k == 2", "h"]))
+        c["x"] = draw(st.sampled_from(["k", "g", "f", "x > 0", "k == 2", "h", "k - 10", "k - 10"]))
         c["success"] = draw(st.sampled_from(["omitted", "present", "present", "absent"]))
         c["pick"] = draw(st.integers(0, 5))
         c["fn"] = draw(st.sampled_from(["binary", "B"]))
@@ -107,6 +107,8 @@ def judge(ctx, case):
             series = vals > 0
         elif xexpr == "k == 2":
             series = vals == 2
+        elif xexpr == "k - 10":
+            series = vals - 10  # contains 0, and 0 is not the smallest value
         else:
             series = vals
         uniq = sorted(set(series.tolist()))
@@ -117,7 +119,7 @@ def judge(ctx, case):
             s = uniq[case["pick"] % len(uniq)]
             arg = ", " + lit(s)
         else:
-            s = "zz" if isinstance(uniq[0], str) else 77
+            s = "zz" if isinstance(uniq[0], str) else (0 if 0 not in uniq and not isinstance(uniq[0], bool) else 77)
             arg = ", " + lit(s)
         formula = f"y ~ 0 + {case['fn']}({xexpr}{arg})"
         done(formula, extra=["success:" + mode, "x:" + xexpr])
@@ -137,7 +139,7 @@ def judge(ctx, case):
             ctx.fail("binary", full, f"{formula!r}: column is not 1 exactly where {xexpr} equals {s!r}", "training_values")
         new = new_frame(case)
         nb = new[base]
-        nseries = (nb > 0) if xexpr == "x > 0" else ((nb == 2) if xexpr == "k == 2" else nb)
+        nseries = (nb > 0) if xexpr == "x > 0" else ((nb == 2) if xexpr == "k == 2" else ((nb - 10) if xexpr == "k - 10" else nb))
         try:
             with core.Guard():
                 g2 = col_of(dm.common.evaluate_new_data(new).design_matrix)
